@@ -159,6 +159,11 @@ def systematic_inputs(ents, rng, auto, nperms, extra_defs=()):
                 for v in d["variants"]:
                     for tn in vforms(v):
                         add(eid, coregen.vstr(tn))
+        if ty[0] in ("hmap", "bmap"):
+            # keys that differ by surrounding white space only are different keys (and not numbers)
+            g0 = coregen.KEYPOOL[ty[1]][1]
+            val = coregen.vmap(coregen.dedup([(g0, pg.gen(ty[2], 0.0)), (" " + g0, pg.gen(ty[2], 0.0)), (g0 + " ", pg.gen(ty[2], 0.0))]))
+            out.append({"ty": eid, "val": val, "src": "ov", "grp": "start", "perm": False, "auto": auto, "perms": []})
         if ty[0] in ("hmap", "bmap") and coregen.BADKEYS[ty[1]]:
             good, bad = coregen.KEYPOOL[ty[1]], coregen.BADKEYS[ty[1]]
             gv = lambda: pg.gen(ty[2], 0.0)
@@ -267,6 +272,20 @@ def subset_inputs(ents, rng, maxfields, extra_defs=()):
     return out
 
 
+def golden_inputs(ents, rng, auto, nperms, extra_defs=()):
+    """every entry with payloads meant to succeed all the way (every field under its effective key, right tag, nothing stray), with
+    integer leaves that pass every user function of the catalogue (4), that only the `validate` functions reject (2), that the
+    conversions reject (3), and mixtures: the success paths, `map` / `validate` and their failures are reached in every check"""
+    out = []
+    for numbers in ([4], [2], [3], [4, 2], [4, 3], [4, 4, 2, 3]):
+        pg = coregen.PayloadGen(rng, extra_defs, golden=True, numbers=numbers)
+        for eid, ty in ents:
+            val = pg.gen(ty, 0.0)
+            perms = [coregen.permute(val, rng) for _ in range(nperms)] if nperms and coregen.count_maps(val) else []
+            out.append({"ty": eid, "val": val, "src": "ov" if len(numbers) % 2 else "json", "grp": "start", "perm": False, "auto": auto, "perms": perms})
+    return out
+
+
 def boundary_inputs(ents, rng, auto):
     """C02 / C04: every scalar entry (and every container of scalars one level up) fed with the values just inside and just outside
     each bound of the target, a zero for the NonZero types, a negative number for the unsigned ones and one value of every kind"""
@@ -317,6 +336,8 @@ def gen_inputs(pid, tier, seed, extra_defs=(), extra_entries=()):
             recs.append(rec)
     recs += systematic_inputs(ents, rng, dict(prof["auto"], all_upto=min(prof["auto"]["all_upto"], 3), random=min(prof["auto"]["random"], 1)),
                               1 if prof["perms"] else 0, extra_defs)
+    recs += golden_inputs(ents, rng, dict(prof["auto"], all_upto=min(prof["auto"]["all_upto"], 3), random=min(prof["auto"]["random"], 1)),
+                          1 if prof["perms"] else 0, extra_defs)
     if pid in ("C04", "C06", "C02", "C01", "C03") or tier == "thorough":
         recs += positional_inputs(ents, rng, extra_defs)
     if pid in ("C02", "C04", "C12") or tier == "thorough":
@@ -470,6 +491,48 @@ def traits_subcheck(pid, tier, binary):
     return {"mc_states": r.distinct, "lines": lines, "tv_states": st, "kinds": list(kinds), "violations": viols}
 
 
+def exercise_report(trace_paths, cat_json):
+    """what of the catalogue the executed runs actually reached: entries that never succeed / never fail, user functions never called,
+    fallible ones that never fail or never succeed (a check cannot notice a change in code no run reaches)"""
+    import collections
+    cat = json.load(open(cat_json))
+    fallible, infallible = set(), set()
+    for n in cat["nodes"]:
+        if not isinstance(n, dict):
+            continue
+        if n.get("cfn"):
+            (fallible if n.get("cfrom") == "try" else infallible).add(n["cfn"])
+        if n.get("vfn"):
+            fallible.add(n["vfn"])
+        if n.get("denyfn"):
+            infallible.add(n["denyfn"])
+        fl = list(n.get("fields") or []) + [f for v in (n.get("variants") or []) for f in (v.get("fields") or [])]
+        for f in fl:
+            if f.get("fn"):
+                (fallible if f.get("frm") == "try" else infallible).add(f["fn"])
+            for k in ("mapfn", "missfn"):
+                if f.get(k):
+                    infallible.add(f[k])
+    called, retok, reterr = collections.Counter(), collections.Counter(), collections.Counter()
+    okruns, errruns, cur = collections.Counter(), collections.Counter(), None
+    for tp in trace_paths:
+        with open(tp) as fh:
+            for l in fh:
+                if '"e":"call"' in l:
+                    called[json.loads(l)["f"]] += 1
+                elif '"e":"ret"' in l:
+                    e = json.loads(l); (retok if e["ok"] else reterr)[e["f"]] += 1
+                elif '"e":"reset"' in l or '"e":"run"' in l:
+                    cur = json.loads(l)["ty"]
+                elif '"e":"done"' in l:
+                    (okruns if json.loads(l)["ok"] else errruns)[cur] += 1
+    ents = [e for e in cat["entries"] if okruns[e] + errruns[e] > 0]
+    return {"user_functions": len(fallible | infallible), "never_called": sorted((fallible | infallible) - set(called)),
+            "fallible_never_failing": sorted(f for f in fallible if called[f] and not reterr[f]),
+            "fallible_never_succeeding": sorted(f for f in fallible if called[f] and not retok[f]),
+            "entries_run": len(ents), "entries_never_ok": [e for e in ents if not okruns[e]], "entries_never_err": [e for e in ents if not errruns[e]]}
+
+
 def run(pid, tier, prop=None):
     """prop: the property whose violations count (default pid)"""
     prop = prop or pid
@@ -600,6 +663,10 @@ def run(pid, tier, prop=None):
     exercised = tot_all["checked"].get(prop, 0)
     if exercised == 0 and prop not in ("C12",):
         raise vlib.ToolError("vacuous run: no event exercised a guard of %s" % prop)
+    ex = exercise_report(traces, cat_env.get("CATALOGUE", os.path.join(vlib.VERIF, "catalogue", "catalogue.json")))
+    gaps = {k: v for k, v in ex.items() if isinstance(v, list) and v and k != "entries_never_err"}
+    if gaps:
+        log("NOTE: parts of the catalogue no run of this check reached: %s" % json.dumps(gaps))
     tr = traits_subcheck(pid, tier, binary)
     if tr:
         violations += tr["violations"]
@@ -628,7 +695,7 @@ def run(pid, tier, prop=None):
         "events_compared_with_keep_going_run": tot_all["compared"],
         "permuted_runs_compared": tot_all["perms"],
         "builtin_messages_compared": tot_all["msgs"],
-        "user_function_calls_seen": tot_all["calls"],
+        "user_function_calls_seen": tot_all["calls"], "exercised": ex,
         "guard_evaluations_for_this_property": exercised,
         "violations_by_property_in_this_trace": {k: v for k, v in tot_all["vcount"].items() if v},
         "checker_cmd": "tlc MC_core (MC_core_free.cfg, MC_core_canon.cfg) + tlc Trace_core per shard",
